@@ -1346,6 +1346,11 @@ func (s *Store) restoreDBFromBackup(ctx context.Context, name string) (newPos lt
 	}
 	newPos = db.Pos()
 
+	// The backup service acknowledges nothing beyond the state it handed out:
+	// a high-water mark from before the restore may name transactions that no
+	// longer exist on the service.
+	db.SetHWM(newPos.TXID)
+
 	slog.Warn("database restore complete",
 		slog.String("name", name),
 		slog.String("pos", newPos.String()),
